@@ -468,4 +468,95 @@ theorem oneof_rejects {env : Env} {cls : String} {kw kvs : Kvs}
   · rw [if_pos hgt] at this; cases this
   · omega
 
+/-! ## `oneof` after construction -/
+
+theorem filter_two_le {α} (p : α → Bool) : ∀ (l : List α) (a b : α), a ∈ l → b ∈ l → a ≠ b →
+    p a = true → p b = true → 2 ≤ (l.filter p).length := by
+  intro l
+  induction l with
+  | nil => intro a _ ha; cases ha
+  | cons x t ih =>
+    intro a b ha hb hne hpa hpb
+    have one : ∀ c, c ∈ t → p c = true → 1 ≤ (t.filter p).length := by
+      intro c hc hpc
+      exact List.length_pos_of_mem (List.mem_filter.2 ⟨hc, hpc⟩)
+    rw [List.filter_cons]
+    rcases List.mem_cons.1 ha with rfl | ha'
+    · rcases List.mem_cons.1 hb with rfl | hb'
+      · exact absurd rfl hne
+      · simp only [hpa, if_true, List.length_cons]; have := one b hb' hpb; omega
+    · rcases List.mem_cons.1 hb with rfl | hb'
+      · simp only [hpb, if_true, List.length_cons]; have := one a ha' hpa; omega
+      · have := ih a b ha' hb' hne hpa hpb
+        split
+        · simp only [List.length_cons]; omega
+        · exact this
+
+/-- more than one type set ⇒ both query methods raise -/
+theorem which_oneof_raises {kvs : Kvs} (h : countSet kvs > 1) :
+    whichOneofName kvs = .error "ValueError" ∧ whichOneof kvs = .error "ValueError" := by
+  unfold countSet at h
+  have hn : whichOneofName kvs = .error "ValueError" := by
+    unfold whichOneofName
+    match hf : kvs.filter (fun kv => !kv.2.isNull) with
+    | [] => rw [hf] at h; simp at h
+    | [_] => rw [hf] at h; simp at h
+    | _ :: _ :: _ => rw [hf]
+  exact ⟨hn, by unfold whichOneof; rw [hn]⟩
+
+/-- **a second backbone / head type assigned to an existing object is detected**: if field `f` is
+set and a non-`None` value is assigned to another field `g`, `which_oneof_attrib_name()` and
+`which_oneof()` raise `ValueError` (they do not answer with the first type) -/
+theorem oneof_rejects_after_assignment {kvs kvs' : Kvs} {f g : String} {cf v : Cfg}
+    (hf : lookup f kvs = some cf) (hfn : cf.isNull = false) (hne : f ≠ g) (hv : v.isNull = false)
+    (ha : assignAttr kvs g v = .ok kvs') :
+    whichOneofName kvs' = .error "ValueError" ∧ whichOneof kvs' = .error "ValueError" := by
+  unfold assignAttr at ha
+  by_cases hg : hasKey g kvs = true
+  · rw [if_pos hg] at ha
+    simp only [Except.ok.injEq] at ha
+    subst ha
+    apply which_oneof_raises
+    unfold countSet
+    have m1 : (f, cf) ∈ setKey g v kvs := by
+      apply lookup_mem; rw [lookup_setKey_ne _ _ (Ne.symm hne)]; exact hf
+    have m2 : (g, v) ∈ setKey g v kvs := lookup_mem (lookup_setKey_self hg)
+    have hne' : (f, cf) ≠ (g, v) := fun h => hne (congrArg Prod.fst h)
+    exact filter_two_le _ _ _ _ m1 m2 hne' (by simp [hfn]) (by simp [hv])
+  · rw [if_neg hg] at ha; cases ha
+
+example : whichOneofName [("unet", .node []), ("convnext", cnull), ("swint", .node [])] = .error "ValueError" := by
+  simp [whichOneofName, Cfg.isNull, cnull]
+
+example : whichOneofName [("unet", cnull), ("convnext", cnull), ("swint", .node [])] = .ok (some "swint") := by
+  simp [whichOneofName, Cfg.isNull, cnull]
+
+/-! ## histories -/
+
+theorem runHistory_outputs_aux (env : Env) (steps : List Step) : ∀ s : HState,
+    (steps.foldl (hstep env) s).outputs = s.outputs ++ (callsOf steps).map (runCall env) := by
+  induction steps with
+  | nil => intro s; simp [callsOf]
+  | cons st r ih =>
+    intro s
+    rw [List.foldl_cons, ih]
+    cases st with
+    | call c => simp [hstep, callsOf]
+    | mutate i t => simp [hstep, callsOf]
+
+/-- **the result of a builder call depends on nothing but its arguments**: in any history of
+calls interleaved with arbitrary in-place mutations of objects handed out earlier, the k-th call
+returns what the same call returns on a fresh state.  (Trivial in the model — it is a pure
+function — and exactly the obligation the correspondence then checks on the implementation:
+every call of a history is compared with the single-call model output.) -/
+theorem builders_history_independent (env : Env) (steps : List Step) :
+    (runHistory env steps).outputs = (callsOf steps).map (runCall env) := by
+  unfold runHistory
+  rw [runHistory_outputs_aux]; rfl
+
+example (env : Env) (t : Cfg) :
+    (runHistory env [.call (.backbone (cstr "unet")), .mutate 0 t, .call (.backbone (cstr "unet"))]).outputs
+      = [runCall env (.backbone (cstr "unet")), runCall env (.backbone (cstr "unet"))] := by
+  rw [builders_history_independent]; rfl
+
 end SleapVerif.C20
